@@ -87,8 +87,29 @@ def run_impl(case):
             import contextlib, io
             with contextlib.redirect_stdout(io.StringIO()): al = ofcfg.read_allowlist()
         if case.get('raw'): os.environ['OPENLINEAGE_EXPORT_RAW_DATA'] = 'true'; cap._last_frame_data = {'x': 1}
-        exp = OTelLineageExporter(cap, allowlist=al)
-        exp.export(mk_metricsdata(case))
+        if case.get('e2e'):
+            facet, flat = run_e2e(case, cap, OTelLineageExporter)
+            return {'facet': facet, 'metrics': flat}
+        if case.get('client'):
+            # the path a running filter takes: OpenTelemetryClient reads the configuration and builds the exporter itself
+            from openfilter.observability import bridge, client as ofclient
+            made = []
+            class Rec(OTelLineageExporter):
+                def __init__(self, *a, **k): super().__init__(*a, **k); made.append(self)
+            bridge.OTelLineageExporter = Rec
+            try: cl = ofclient.OpenTelemetryClient(enabled=True, exporter_type='silent', lineage_emitter=cap, instance_id='verif')
+            finally: bridge.OTelLineageExporter = OTelLineageExporter
+            try:
+                if len(made) != 1: return {'facet': f'client-built-{len(made)}-exporters'}
+                made[0].export(mk_metricsdata(case))
+                calls = list(cap.calls)
+            finally:
+                try: cl.provider.shutdown()
+                except Exception: pass
+            cap.calls = calls
+        else:
+            exp = OTelLineageExporter(cap, allowlist=al)
+            exp.export(mk_metricsdata(case))
     finally:
         for k, v in old.items():
             os.environ.pop(k, None)
@@ -96,6 +117,84 @@ def run_impl(case):
         if tmp: os.unlink(tmp.name)
     if len(cap.calls) > 1: return {'facet': 'multiple-calls'}
     return {'facet': canon_facet(cap.calls[0]) if cap.calls else None}
+
+
+def flatten_md(md):
+    """real MetricsData -> the model's input (name, first data point), in export order"""
+    ms = []
+    for rm in md.resource_metrics:
+        for sm in rm.scope_metrics:
+            for dp in sm.metrics:
+                pts = getattr(dp.data, 'data_points', None)
+                if not pts: ms.append({'name': dp.name, 'point': {'k': 'none'}}); continue
+                pt = pts[0]
+                if hasattr(dp.data, 'is_monotonic') and dp.data.is_monotonic: p = {'k': 'sum', 'mono': True, 'v': int(pt.value)}
+                elif hasattr(pt, 'bucket_counts'): p = {'k': 'hist', 'bounds': [int(b) for b in pt.explicit_bounds], 'counts': list(pt.bucket_counts), 'count': pt.count, 'sum': int(pt.sum)}
+                elif hasattr(dp.data, 'is_monotonic'): p = {'k': 'sum', 'mono': False, 'v': int(pt.value)}
+                else: p = {'k': 'gauge', 'v': int(pt.value)}
+                ms.append({'name': dp.name, 'point': p})
+    return ms
+
+
+def run_e2e(case, cap, OTelLineageExporter):
+    """The whole path of a running filter: OpenTelemetryClient (reads the allow-list, builds the bridge exporter and both meters),
+    TelemetryRegistry (declared business metrics recorded from frame data), update_metrics (system metrics), one collection cycle of
+    the SDK.  Returns (facet handed to the lineage backend, the flattened MetricsData the exporter was given)."""
+    from openfilter.observability import bridge, client as ofclient
+    from openfilter.observability.registry import TelemetryRegistry
+    from openfilter.observability.specs import MetricSpec
+    import opentelemetry.metrics._internal as omi
+    omi._METER_PROVIDER = None; omi._METER_PROVIDER_SET_ONCE._done = False      # the SDK allows one global provider per process: every case is its own "process"
+    e = case['e2e']
+    made, seen = [], []
+
+    class Rec(OTelLineageExporter):
+        def __init__(self, *a, **k): super().__init__(*a, **k); made.append(self)
+        def export(self, md, *a, **k): seen.append(md); return super().export(md, *a, **k)
+    bridge.OTelLineageExporter = Rec
+    try: cl = ofclient.OpenTelemetryClient(enabled=True, exporter_type='silent', lineage_emitter=cap, instance_id='verif')
+    finally: bridge.OTelLineageExporter = OTelLineageExporter
+    try:
+        if len(made) != 1: return f'client-built-{len(made)}-exporters', []
+        specs = [MetricSpec(nm, kind, (lambda d, k=k: d.get(k)), boundaries=bd, num_buckets=nb) for k, (nm, kind, bd, nb) in enumerate(e['specs'])]
+        reg = TelemetryRegistry(cl.business_meter, specs)
+        for row in e['rows']: reg.record({int(k): v for k, v in row.items()})
+        for upd in e['sys']: cl.update_metrics(upd, e['filter'])
+        cl.provider.force_flush()
+        facets = [c for c in cap.calls if c is not None]
+        if len(facets) > 1: return 'multiple-calls', flatten_md(seen[0])
+        return (canon_facet(facets[0]) if facets else None), (flatten_md(seen[0]) if seen else [])
+    finally:
+        try: cl.provider.shutdown()
+        except Exception: pass
+
+
+OTEL_NAMES = ['frames', 'frames_total', 'fps', 'cpu', 'secret', 'det_count', 'a', 'ab', 'abc', 'x-y', 'm.n', 'abcd', 'fpss', 'xfps', 'secret2', 'my_secret',
+              'det_', 'x-yz', 'confidence_avg', 'frame_size', 'detections']
+
+
+def gen_e2e_case(rng):
+    r = rng.random()
+    allow = [] if r < 0.2 else rng.sample(OTEL_NAMES + PATS + ['f_*', 'f_fps', '*_cpu', 'F_fps'], rng.randint(1, 4))
+    allow = [a for a in allow if ',' not in a and a == a.strip() and a]
+    specs, used = [], set()
+    for _ in range(rng.randint(0, 5)):
+        nm = rng.choice(OTEL_NAMES)
+        if nm in used: continue
+        used.add(nm)
+        kind = rng.choice(['counter', 'counter', 'histogram', 'histogram', 'gauge'])
+        bd = sorted(rng.sample(range(1, 100), rng.randint(2, 5))) if kind == 'histogram' and rng.random() < 0.6 else None
+        specs.append([nm, kind, bd, rng.randint(2, 6)])
+    rows = [{str(k): rng.choice([None, rng.randint(0, 120)]) for k in range(len(specs))} for _ in range(rng.randint(0, 5))]
+    sysn = ['fps', 'cpu', 'mem', 'lat_in', 'frames', 'frames_total', 'secret', 'uptime_count']
+    sysu = [{n: rng.randint(0, 500) for n in rng.sample(sysn, rng.randint(1, 4))} for _ in range(rng.randint(0, 3))]
+    if sysu and rng.random() < 0.3: sysu[0]['label'] = 'not-a-number'
+    via = rng.choice(['env', 'file']) if allow else rng.choice(['env', 'file', 'nokey'])
+    case = {'allow': allow, 'via': via, 'client': True, 'metrics': [], 'cut': 0, 'raw': False,
+            'e2e': {'specs': specs, 'rows': rows, 'sys': sysu, 'filter': rng.choice(['F', 'Util', 'f'])}}
+    if via == 'env' and allow: case['envtext'] = ','.join(allow)
+    if via == 'nokey': case['envtext'] = 'frames*,f_*'
+    return case
 
 
 def oracle(case, impl):
@@ -148,7 +247,7 @@ def gen_case(rng):
     if via == 'env' and allow:
         if any(',' in a or a != a.strip() or not a for a in allow): case['via'] = 'ctor'
         else: case['envtext'] = (' , '.join(allow) + rng.choice(['', ',', ' , ,'])) if rng.random() < 0.5 else ','.join(allow)
-    if via == 'file' and allow and any(a == '' for a in allow): case['via'] = 'ctor'
+    if via == 'file' and allow and rng.random() < 0.25: allow.insert(rng.randint(0, len(allow)), rng.choice(['', '', ' ', '**']))   # blank / degenerate entries of a hand-edited YAML list
     if case['via'] == 'file' and rng.random() < 0.5:
         # OF_SAFE_METRICS is set as well (inherited from a compose / .env file): the documented precedence is the file
         other = rng.sample([x for x in NAMES[:-1] + PATS if x and ',' not in x and x == x.strip()], rng.randint(1, 3))
@@ -157,6 +256,8 @@ def gen_case(rng):
         case['via'] = 'both' if r < 0.7 else 'nokey' if r < 0.85 else 'badfile'
         if case['via'] == 'nokey': case['allow'] = []
         if case['via'] == 'badfile': case['allow'] = other
+    # every second configuration that is read from the environment / a file goes through OpenTelemetryClient (the path of a running filter)
+    if case['via'] != 'ctor' and rng.random() < 0.5: case['client'] = True
     return case
 
 
@@ -204,12 +305,13 @@ def run(ctx):
         cases = [ctx.replay['case']] if ctx.replay.get('case') else []
     else:
         n = 30000 if ctx.thorough else (6000 if ctx.escalate else 1500)
-        cases = [c['case'] if 'case' in c else c for c in ctx.corpus] + [gen_case(rng) for _ in range(n)]
+        cases = [c['case'] if 'case' in c else c for c in ctx.corpus] + [gen_case(rng) for _ in range(n)] + [gen_e2e_case(rng) for _ in range(n // 5)]
     impl = []
     kinds = {}
     for c in cases:
         try: o = run_impl(c)
         except Exception as e: o = {'facet': f'exception:{type(e).__name__}'}
+        if c.get('e2e'): c['metrics'] = o.pop('metrics', [])      # what the SDK handed the exporter: the model's (and the oracle's) input
         impl.append(o)
     # batches from the real SDK go through the real export() with the real MetricsData object
     sdk = [] if ctx.replay else sdk_cases(rng, 300 if ctx.thorough else 40)
@@ -244,7 +346,7 @@ def run(ctx):
         exported = len(o['facet'] or []) if isinstance(o['facet'], list) else 0
         nontriv = (c['allow'] == [] and bool(names)) or (0 < exported < len(names))
         res.note(c, nontriv)
-        kinds[('none' if c['allow'] is None else 'empty' if not c['allow'] else 'list') + '/' + c.get('via', 'ctor')] = kinds.get(('none' if c['allow'] is None else 'empty' if not c['allow'] else 'list') + '/' + c.get('via', 'ctor'), 0) + 1
+        kk = ('none' if c['allow'] is None else 'empty' if not c['allow'] else 'list') + '/' + c.get('via', 'ctor') + ('@e2e' if c.get('e2e') else '@client' if c.get('client') else ''); kinds[kk] = kinds.get(kk, 0) + 1
         for key, what in viol:
             res.violations.append(Violation(key, what, c))
         if model is not None:
